@@ -618,15 +618,34 @@ def _process_internal_events_without_default_matchers(
                     )
                     return handled_event_loops
 
-                add_new_flow_instance(
-                    state,
-                    create_flow_instance(
+                try:
+                    new_flow_instance = create_flow_instance(
                         state.flow_configs[flow_id],
                         event.arguments["flow_instance_uid"],
                         event.arguments["flow_hierarchy_position"],
                         event.arguments,
-                    ),
-                )
+                    )
+                except Exception as e:
+                    # The instance cannot be created (e.g. a faulty default value of a flow
+                    # parameter): only the flow that asked for it fails
+                    log.warning(
+                        "Flow '%s' could not be started due to Colang runtime exception: %s",
+                        flow_id,
+                        e,
+                        exc_info=True,
+                    )
+                    colang_error_event = Event(
+                        name="ColangError",
+                        arguments={
+                            "type": str(type(e).__name__),
+                            "error": str(e),
+                        },
+                    )
+                    _push_internal_event(state, colang_error_event)
+                    _abort_flow(state, source_flow_state, event.matching_scores)
+                    return handled_event_loops
+
+                add_new_flow_instance(state, new_flow_instance)
 
     elif event.name == InternalEvents.FINISH_FLOW:
         if "flow_instance_uid" in event.arguments:
